@@ -894,20 +894,24 @@ End Timeouts.
 (* ---- AEAD nonces ---------------------------------------------------------------------- *)
 Definition iv_ok (iv : list Z) : Prop := bytes_ok iv = true /\ (4 <= length iv)%nat.
 
+Opaque be_encode.
 Lemma inc_iv_ctr iv iv' : iv_ok iv -> inc_iv iv = Ok iv' ->
   be_decode (skipn 4 iv') = be_decode (skipn 4 iv) + 1 /\ iv_ok iv' /\ be_decode (skipn 4 iv') < 2 ^ 64.
 Proof.
   intros [Hb Hl] H. unfold inc_iv in H.
-  destruct (be_decode (skipn 4 iv) + 1 <? 2 ^ 64) eqn:E; [|discriminate]. injection H as <-.
+  destruct (be_decode (skipn 4 iv) + 1 <? 2 ^ 64) eqn:E; [|discriminate].
+  assert (Hiv : iv' = firstn 4 iv ++ be_encode 8 (be_decode (skipn 4 iv) + 1)) by congruence.
+  subst iv'. clear H.
   pose proof (be_decode_range (skipn 4 iv) (bytes_ok_skipn 4 iv Hb)) as R.
   assert (L4 : length (firstn 4 iv) = 4%nat) by (rewrite firstn_length; lia).
-  rewrite skipn_app_exact by (now rewrite L4).
+  rewrite (skipn_app_exact (firstn 4 iv) _ 4) by (symmetry; exact L4).
   assert (D : be_decode (be_encode 8 (be_decode (skipn 4 iv) + 1)) = be_decode (skipn 4 iv) + 1).
   { apply be_decode_encode. change (256 ^ Z.of_nat 8) with (2 ^ 64). lia. }
   rewrite D. split; [reflexivity|]. split; [|lia]. split.
   - rewrite bytes_ok_app, be_encode_ok, (bytes_ok_firstn 4 iv Hb). reflexivity.
   - rewrite app_length, L4. lia.
 Qed.
+Transparent be_encode.
 
 Lemma iv_after_ctr : forall k iv a, iv_ok iv -> iv_after k iv = Ok a ->
   be_decode (skipn 4 a) = be_decode (skipn 4 iv) + Z.of_nat k /\ iv_ok a.
